@@ -186,7 +186,24 @@ theorem c08_disconnect_closes (noise login : Bool) (evs : List Ev) :
   · rw [hc] at h; cases h
   · exact h
 
+/-- **C08 (every cause closes).**  In ANY state — whatever fatal cause is already on record, whatever phase or disconnect
+call is pending — the end of the device's stream (while the transport is open) and the loss of the transport close the
+connection in that very step. -/
+theorem c08_loss_closes (s : State) :
+    (s.transportOpen = true → (step s .eof).st = .closed) ∧ (s.lostPending = true → (step s .lost).st = .closed) := by
+  constructor
+  · intro h; simp [step, h, reportFatal, cleanup, aTrClose]
+  · intro h; simp [step, h, onLost, reportFatal, cleanup]
+
 /-! ## non-vacuity -/
+
+/-- a `disconnect()` that gave up waiting for the connect (its timeout is on record as the fatal cause, the connection is
+still open), then the device hangs up: closed at once -/
+example :
+    let s := run {} [.callStart, .resolved true, .wakeStart, .sockDone true, .wakeStart, .cbStart, .callFinish, .connMade, .wakeFinish,
+      .callDisc, .fireDiscWait, .wakeDisc]
+    s.fatal.isSome = true ∧ s.st ≠ .closed ∧ s.transportOpen = true ∧ (step s .eof).st = .closed := by decide +kernel
+
 
 example : let s := run {} [.callStart, .callDisc]
     s.disc = .done ∧ s.discCancelled = false ∧ s.st = .closed ∧ s.start ≠ .idle := by decide
